@@ -256,6 +256,7 @@ def run_history(ctx, cfg, width, depth, keys, ops, merge_free, truth0=None):
             ctx.violation({"config": cfg.key(), "width": width, "depth": depth,
                            "ops": [o.json() for o in ops[:idx + 1]], "n_added": na, "expected": total},
                           "n_added is not the sum of the multiplicities")
+        ctx.count("op:" + op.kind)
         if tainted:
             continue
         for k in allkeys:
@@ -280,25 +281,34 @@ def run_history(ctx, cfg, width, depth, keys, ops, merge_free, truth0=None):
                                   "collision-free key not counted exactly inside the reserved range")
                 ok = False
         ctx.case_seen(("hist", cfg.key(), width, depth, idx, repr(op.json())), op.kind != "set_rand")
-        ctx.count("op:" + op.kind)
     case = L.hist_case(width, depth, bmap, ops, snaps)
     return sk, case, truth, total, ok
 
 
 def table_cases(cfg, grid):
     """Coq boolean conditions on the tables of one configuration (DESIGN 3.4), as `inl i` cases"""
-    return [f"(inl {i})" for i in range(7 if grid else 6)]
+    return [f"(inl {i})" for i in range(8 if grid else 7)]
 
 
-def table_check_fn(cfg, nsample_pairs=None):
+def table_check_fn(cfg, sample=False):
+    """sample: evaluate the exact-arithmetic recurrences inside Coq on every 16th counter plus the first
+    300 only (log16, quick tier; python checks all of them with fractions.Fraction in both tiers)"""
     nr, umax, mc = cfg.nr, cfg.umax, cfg.max_count
     w = L.KINDS[cfg.kind]["wrap"]
     b = L.fhex(cfg.base)
+    n = umax - nr
+    if sample:
+        pcs = f"(zrange 0 (Z.min 300 {n}) ++ map (fun i => i * 16) (zrange 0 ({n} / 16)))%list"
+        dcs = f"(zrange {nr} (Z.min 300 {n}) ++ map (fun i => {nr} + i * 16) (zrange 0 ({n} / 16)))%list"
+    else:
+        pcs, dcs = f"(zrange 0 {n})", f"(zrange {nr} {n})"
     return ("(fun i : Z => match i with "
             f"| 0 => f_eqb (pn 0) f_one | 1 => decode_reserved_b {nr} dc | 2 => decode_increasing_b {umax} dc "
             f"| 3 => powneg_ok_b {nr} {umax} pn "
-            f"| 4 => powneg_recurrence_b 45 {b} pn (zrange 0 ({umax} - {nr})) "
-            f"| 5 => decode_recurrence_b 45 {nr} {b} dc (zrange {nr} ({umax} - {nr})) "
+            f"| 4 => powneg_recurrence_b 45 {b} pn {pcs} "
+            f"| 5 => decode_recurrence_b 45 {nr} {b} dc {dcs} "
+            f"| 6 => let cs := (zrange 0 (Z.min 300 ({umax} - {nr})) ++ map (fun i => i * 61) (zrange 0 (({umax} - {nr}) / 61)))%list in "
+            f"f2me_agree_b pn cs && f2me_agree_b dc cs && dy_eqb (f2me {b}) (f2me_spec {b}) "
             f"| _ => merge_grid_b {nr} {umax} {mc} dc {w} end)")
 
 
@@ -323,11 +333,19 @@ def run(ctx):
         for mc, nr, msg in rejected:
             ctx.count("config-rejected-by-constructor")
     ctx.tick("configurations constructed")
+    hist_cfgs = cfgs["log8"][:6 if quick else None] + cfgs["log16"][:2 if quick else None]
+    # the log16 table modules compile (7 s each) while python works
+    from concurrent.futures import ThreadPoolExecutor
+    tab_pool = ThreadPoolExecutor(max_workers=1)
+    tab_future = tab_pool.submit(L.compile_tables, ctx, [c for c in hist_cfgs if c.kind == "log16"])
 
     # ---------------------------------------------------------------- tables in exact arithmetic (python)
     for kind in ("log8", "log16"):
         for cfg in cfgs[kind]:
-            bad = L.check_tables_exact(cfg, 45)
+            cs = None
+            if quick and kind == "log16":
+                cs = sorted(set(range(0, 65536, 5)) | set(range(cfg.nr, min(cfg.nr + 400, 65535))) | set(range(65200, 65536)))
+            bad = L.check_tables_exact(cfg, 45, counters=cs)
             if bad:
                 ctx.violation({"config": cfg.key(), "base": cfg.base.hex(), "failed": bad[:6]},
                               "pow/decode table of the implementation violates a condition of the model: " + bad[0])
@@ -364,8 +382,7 @@ def run(ctx):
 
     # ---------------------------------------------------------------- C. random histories
     hist = {}          # cfg.key() -> list of (case, replay info)
-    nh = (10 if quick else 60)
-    hist_cfgs = cfgs["log8"][:6 if quick else None] + cfgs["log16"][:2 if quick else None]
+    nh = (24 if quick else 80)
     for cfg in hist_cfgs:
         lst = hist.setdefault(cfg.key(), [])
         for i in range(nh if cfg.kind == "log8" else max(3, nh // 2)):
@@ -388,6 +405,8 @@ def run(ctx):
             lst.append((case, {"ops": [o.json() for o in ops], "width": width, "depth": depth}))
     ctx.cov["traces_validated_against_impl"] = sum(len(v) for v in hist.values()) + len(refill_cases)
     ctx.tick("random histories on the implementation")
+    tabmods = tab_future.result()
+    tab_pool.shutdown()
     if ctx.violations:
         return                                     # a predicate failed on the real code: report that
 
@@ -398,14 +417,22 @@ def run(ctx):
         w = L.KINDS[kind]["wrap"]
         fn = f"fun x : Z * Z * (Z * float * Z * Z) => let '(nr, umax, row) := x in step_row_ok nr umax {w} row"
         jobs.append((f"step_{kind}", fn, rows[kind], 3000 if quick else 8192, "", None))
+    # self-test of the comparison: rows whose recorded outcome is deliberately falsified must all be flagged
+    import re as _re
+    falsified = []
+    for r in rows["log8"][16:400:64]:
+        m = _re.match(r"^(.*), (\d+), (\d+)\)\)$", r)
+        falsified.append(f"{m.group(1)}, {int(m.group(2)) ^ 4}, {m.group(3)}))")
+        falsified.append(f"{m.group(1)}, {m.group(2)}, {int(m.group(3)) ^ 1}))")
+    jobs.append(("selftest", "fun x : Z * Z * (Z * float * Z * Z) => let '(nr, umax, row) := x in "
+                 "step_row_ok nr umax wrap8 row", falsified, 100, "", "selftest"))
     # tables: log8 inline, log16 compiled once per configuration
-    tabmods = L.compile_tables(ctx, [c for c in hist_cfgs if c.kind == "log16"])
     for ci, cfg in enumerate(hist_cfgs):
         prelude = L.coq_table_prelude(cfg, tabmods.get(cfg.key()))
         grid = cfg.kind == "log8" and (ci < 3 or not quick)
         w = L.KINDS[cfg.kind]["wrap"]
         fn = ("fun x : Z + (Z * Z * list (key * list Z) * list lop * list (list (list Z) * Z * Z * Z)) => "
-              f"match x with inl i => {table_check_fn(cfg)} i "
+              f"match x with inl i => {table_check_fn(cfg, sample=(quick and cfg.kind == 'log16'))} i "
               f"| inr c => hist_case_ok {cfg.nr} {cfg.umax} {cfg.max_count} pn dc {w} c end")
         cases = table_cases(cfg, grid) + ["(@inr Z _ " + c + ")" for c, _ in hist[cfg.key()]]
         extra = [rc for rc in refill_cases if rc[0] is cfg]
@@ -417,9 +444,16 @@ def run(ctx):
             ctx.broken.append("refill case for a configuration without tables")      # cannot happen by construction
 
     ncoq = 0
+    results = L.coq_jobs(ctx, imports, [(tag, fn, cases, shard, prelude) for tag, fn, cases, shard, prelude, _ in jobs])
     for tag, fn, cases, shard, prelude, desc in jobs:
-        bad, err = ctx.coq_bad_cases(tag, imports, fn, cases, shard=shard, prelude=prelude)
+        bad, err = results[tag]
         ncoq += len(cases)
+        if desc == "selftest":
+            if err or len(bad) != len(cases):
+                ctx.broken.append(f"self-test: {len(cases) - len(bad)} of {len(cases)} falsified step rows were not "
+                                  f"flagged by the Coq comparison ({err})")
+            ctx.cov["selftest_falsified_rows_flagged"] = len(bad)
+            continue
         if err:
             ctx.broken.append(f"correspondence {tag} could not be evaluated: {err[:500]}")
         for b in sorted(bad)[:3]:
@@ -431,7 +465,9 @@ def run(ctx):
                 if b < ntab:
                     names = ["powneg 0 = 1.0", "decode c = c on 0..nr+1", "decode strictly increasing",
                              "powneg strictly decreasing and positive", "powneg recurrence within 2^-45",
-                             "decode recurrence within 2^-45 of value + b^c'/(b-1)", "merge grid (ge/range/lower/comm/reserved/empty)"]
+                             "decode recurrence within 2^-45 of value + b^c'/(b-1)",
+                             "fast exact decoding of floats agrees with the standard library's Prim2SF",
+                             "merge grid (ge/range/lower/comm/reserved/empty)"]
                     ctx.broken.append(f"table condition '{names[b]}' fails inside Coq for configuration {cfg.key()}")
                 else:
                     ctx.broken.append(f"correspondence cms-log history ({tag}): model and implementation differ on case "
